@@ -21,6 +21,7 @@ def commands : List (String × (String → String)) := [
   ("trace", trace),
   ("api", api),
   ("names", names),
+  ("snapcheck", snapcheck),
   ("dq", dq),
   ("vhdl", vhdl),
   ("tstep", tstep),
